@@ -330,7 +330,7 @@ def r3(ctx, R):
     okr = False
     for c in rt:
         a = c.args[0] if c.args else None
-        if isinstance(a, ast.Tuple) and len(a.elts) == 2 and norm(a.elts[0]) == "self.counter - 1" \
+        if isinstance(a, ast.Tuple) and len(a.elts) == 2 and q.rnorm(rb, a.elts[0]) == "self.counter - 1" \
                 and ("self", "T") in q.guards_of(rb, c) and o_rb["counter-=1"] and q.dominated(rb, o_rb["counter-=1"], c) \
                 and o_rb["refstack.pop"] and not q.path_between(rb, c, o_rb["refstack.pop"][0]):
             okr = True
